@@ -88,21 +88,37 @@ theorem C02_decode_reads (enc : Option Enc) (hk : int32Known enc = true) (bl : N
   obtain ⟨s', h1, _, h3⟩ := atomic_int32_roundtrip enc hk bl hbl hbl64 v hr hl s hmsg
   exact ⟨s', h1, h3⟩
 
+/-- the ODX representation of an internal value in the object's base type / encoding / bit length, as
+    mathematics: `Spec.repr` for `A_INT32`, the plain binary numeral for `A_UINT32` -/
+def Obj.specRepr (o : Obj) (v : IVal) : Nat :=
+  match o.kind, v with
+  | .int32, .int i => Spec.repr o.enc o.bl i
+  | .uint32, .int i => i.toNat
+  | _, _ => 0
+
+theorem Obj.raw_eq_spec (o : Obj) (ho : o.ok) (v : IVal) (hr : o.inRange v) : o.raw v = o.specRepr v := by
+  obtain ⟨hk, hbl, _⟩ := ho
+  unfold Obj.inRange at hr
+  unfold Obj.encOk at hk
+  unfold Obj.raw Obj.specRepr
+  cases hkind : o.kind <;> cases v <;> simp only [hkind] at hr hk ⊢
+  exact C02_numrepr o.enc hk o.bl hbl _ hr
+
 /-- **Bit-exact PDUs, flat composite tier.** For a request/response/structure made of (≤ 4000) positioned
-    `A_INT32` VALUE parameters and an accepted assignment of representable values with no overlap warning:
+    integer VALUE parameters (`A_INT32` in any of its four encodings, `A_UINT32`) and an accepted assignment of representable values with no overlap warning:
     (1) bit `j` of the ODX representation of each value sits at the absolute position the positional rule gives —
     the object's byte position is the structure's origin (0) + BYTE-POSITION, or the byte behind the previous
     parameter (`cursorAfter`), its bit position is BIT-POSITION, its byte order as declared;
     (2) every bit no object claims is zero. Together: each bit of the PDU equals what the ODX rules prescribe. -/
-theorem C02_bit_exact_flat (ovs : List (Obj × Int)) (hlen : ovs.length ≤ 4000) (values : List (String × PVal))
+theorem C02_bit_exact_flat (ovs : List (Obj × IVal)) (hlen : ovs.length ≤ 4000) (values : List (String × PVal))
     (trig : Option Bytes)
-    (hok : ∀ ov ∈ ovs, ov.1.ok ∧ Spec.representable ov.1.enc ov.1.bl ov.2)
-    (hlook : ∀ ov ∈ ovs, lookup ov.1.name values = some (.atom (.int ov.2)))
+    (hok : ∀ ov ∈ ovs, ov.1.ok ∧ ov.1.inRange ov.2)
+    (hlook : ∀ ov ∈ ovs, lookup ov.1.name values = some (.atom ov.2))
     (hknown : values.any (fun kv => !((ovs.map fun ov => ov.1.toParam).any fun p => p.name == kv.1)) = false)
     (pdu : Bytes)
     (henc : encodeMessage none (ovs.map fun ov => ov.1.toParam) (.dict values) trig true = .ok (pdu, 0)) :
     (∀ pre o v post, ovs = pre ++ (o, v) :: post → ∀ j, j < o.bl →
-        getBit pdu (absBit (o.pos 0 (cursorAfter 0 (pre.map (·.1)) 0)) o.k o.hl (j + o.bp)) = (Spec.repr o.enc o.bl v).testBit j) ∧
+        getBit pdu (absBit (o.pos 0 (cursorAfter 0 (pre.map (·.1)) 0)) o.k o.hl (j + o.bp)) = (o.specRepr v).testBit j) ∧
     (∀ a, (∀ pre o v post, ovs = pre ++ (o, v) :: post → ¬ o.claims (o.pos 0 (cursorAfter 0 (pre.map (·.1)) 0)) a) →
         getBit pdu a = false) := by
   obtain ⟨s0, hm, _, hw, hc, ho, hrun⟩ := encodeMessage_flat ovs hlen values trig hok hlook hknown
@@ -112,10 +128,10 @@ theorem C02_bit_exact_flat (ovs : List (Obj × Int)) (hlen : ovs.length ≤ 4000
   constructor
   · intro pre o v post heq j hj
     have hmem : (o, v) ∈ ovs := by rw [heq]; simp
-    obtain ⟨⟨hk, hbl, _⟩, hr⟩ := hok (o, v) hmem
+    obtain ⟨hoo, hr⟩ := hok (o, v) hmem
     have := flat_described pre post o v s0 (by rw [← heq, hwarn, hw]) j hj
     rw [← heq, hpdu, ho, hc] at this
-    rw [this, C02_numrepr o.enc hk o.bl hbl v hr]
+    rw [this, o.raw_eq_spec hoo v hr]
   · intro a ha
     have := flat_undescribed ovs s0 a (by rw [ho, hc]; exact ha)
     rw [hpdu, hm] at this
